@@ -226,8 +226,9 @@ impl ElectricDrivetrain {
         Ok(())
     }
 
-    impl_get_set_eta_max_min!();
-    impl_get_set_eta_range!();
+    // `pwr_in_frac_interp` is derived from `eta_interp`
+    impl_get_set_eta_max_min!(|s: &mut Self| s.set_pwr_in_frac_interp().map_err(|e| e.to_string()));
+    impl_get_set_eta_range!(|s: &mut Self| s.set_pwr_in_frac_interp().map_err(|e| e.to_string()));
 }
 
 // failed attempt at making path to default platform independent
